@@ -1,7 +1,7 @@
 SPECIFICATION MCSpec
 CONSTANTS
-  Handles = {1, 2}
-  Vals = {1, 2}
+  Handles = {1, 2, 3}
+  Vals = {1}
   MaxLen = 2
   MaxBuf = 1000
 VIEW View
